@@ -78,11 +78,16 @@ def norm_path(p):
             seg = p[i + 3:j]
             if seg.startswith("impl ") and not p.startswith(("core::", "std::", "alloc::", "<")):
                 ty = seg[5:]
-                # last path component of the self type, without generics
-                k = ty.find("<")
-                base = ty[:k] if k >= 0 else ty
-                base = base.strip().lstrip("&").replace("mut ", "").strip()
-                out.append("::{" + base.split("::")[-1] + "}")
+                if " for " in ty:
+                    # trait impl for a foreign type: keep `Trait<Arg> for Type` with short names
+                    short = re.sub(r"(?:[A-Za-z_][A-Za-z0-9_]*::)+", "", ty)
+                    out.append("::{" + short + "}")
+                else:
+                    # last path component of the self type, without generics
+                    k = ty.find("<")
+                    base = ty[:k] if k >= 0 else ty
+                    base = base.strip().lstrip("&").replace("mut ", "").strip()
+                    out.append("::{" + base.split("::")[-1] + "}")
             i = j + 1
             continue
         out.append(p[i])
